@@ -262,8 +262,9 @@ pub fn valid_text(rng: &mut Rng, force_type: Option<usize>) -> TextCase {
             text.push('(');
             let mut meta = [0u8; 20];
             for (i, v) in nums.iter().enumerate() {
+                // horizontal whitespace only: that is all the property promises
                 let sep = match rng.below(4) {
-                    0 => "\n\t".to_string(),
+                    0 => " \t".to_string(),
                     1 => "  ".to_string(),
                     _ => " ".to_string(),
                 };
